@@ -189,7 +189,20 @@ def run_case(case) -> Outcome:  # noqa: C901, PLR0912, PLR0915
             if consume in ("same", "other_scope", "outside"):
                 await consumer(stream)
             elif consume == "other_task":
-                await loop.create_task(consumer(stream))
+                if case.get("swallowed_cancel"):
+                    # the consuming task absorbed a cancellation request earlier (graceful shutdown code that still drains
+                    # a stream): Task.cancelling() stays > 0, which must not change what the stream delivers
+                    async def drained_after_cancel():
+                        asyncio.current_task().cancel()
+                        try:
+                            await asyncio.sleep(0)
+                        except asyncio.CancelledError:
+                            pass
+                        await consumer(stream)
+
+                    await loop.create_task(drained_after_cancel())
+                else:
+                    await loop.create_task(consumer(stream))
             else:  # split_tasks: first task takes one item, a second task the rest
                 async def first():
                     obs.setdefault("fp0", K.fp())
@@ -373,7 +386,7 @@ def strategy(tier):
     return st.builds(
         lambda n, end, gn, gr, ns, ci, co, mo, ba, gs, gsp: {
             "items": n, "end": end, "gen_nested": gn, "gen_record": gr, "nested_stream": ns, "create_in": ci, "consume": co, "mode": mo, "break_after": ba,
-            "gen_suspends": gs or mo == "timeout", "gen_span": gsp,
+            "gen_suspends": gs or mo == "timeout", "gen_span": gsp, "swallowed_cancel": co == "other_task" and ba % 2 == 1,
         },  # fmt: skip
         st.one_of(st.integers(0, 4), st.integers(0, 4), st.integers(5, 14)),  # also long streams (many nested scopes / records)
         st.sampled_from(["stop", "stop", "raise"]),
